@@ -523,11 +523,22 @@ impl<'a> Runner<'a> {
                     return false;
                 }
             }
-            // window opens
-            let Some(k) = self.nb_step(dev, "timeout", json!({"args": {"w": w}}), None, |d| d.handle_event(Event::TimeoutFired))
+            // window opens (plan.fault 1 / 3: the radio refuses the RX request of RX1 / RX2 once)
+            let fault_open = plan.fault == (2 * w - 1) as i32;
+            self.env.borrow_mut().nb_rxreq_err = fault_open;
+            let Some(mut k) = self.nb_step(dev, "timeout", json!({"args": {"w": w}}), None, |d| d.handle_event(Event::TimeoutFired))
             else {
                 return false;
             };
+            self.env.borrow_mut().nb_rxreq_err = false;
+            if fault_open && k == "ErrRadio" {
+                // the application retries the timer event
+                let Some(k2) = self.nb_step(dev, "timeout", json!({"args": {"w": w}}), None, |d| d.handle_event(Event::TimeoutFired))
+                else {
+                    return false;
+                };
+                k = k2;
+            }
             if k != "TimeoutRequest" {
                 return true;
             }
@@ -543,11 +554,21 @@ impl<'a> Runner<'a> {
                     return true; // procedure over (accepted, oversize, error)
                 }
             }
-            // window closes
-            let Some(k) = self.nb_step(dev, "timeout", json!({"args": {"w": w + 10}}), None, |d| d.handle_event(Event::TimeoutFired))
+            // window closes (plan.fault 2 / 4: the radio fails to cancel the reception once)
+            let fault_close = plan.fault == (2 * w) as i32;
+            self.env.borrow_mut().nb_cancel_err = fault_close;
+            let Some(mut k) = self.nb_step(dev, "timeout", json!({"args": {"w": w + 10}}), None, |d| d.handle_event(Event::TimeoutFired))
             else {
                 return false;
             };
+            self.env.borrow_mut().nb_cancel_err = false;
+            if fault_close && k == "ErrRadio" {
+                let Some(k2) = self.nb_step(dev, "timeout", json!({"args": {"w": w + 10}}), None, |d| d.handle_event(Event::TimeoutFired))
+                else {
+                    return false;
+                };
+                k = k2;
+            }
             if w == 1 && k != "TimeoutRequest" {
                 return true;
             }
@@ -894,6 +915,10 @@ pub struct GenCfg {
     pub p_cmds: f64,
     pub p_reject: f64,
     pub p_fault: f64,
+    /// probability of a re-join from the joined state, per op
+    pub p_rejoin: f64,
+    /// enumerate DLSettings / RxDelay of JoinAccepts systematically
+    pub ja_enum: bool,
 }
 
 pub struct Gen {
@@ -944,8 +969,13 @@ impl Gen {
 
     fn join_accept_frame(&mut self) -> Frame {
         let (cftype, cf) = self.cflist();
-        let dl: u8 = if self.rng.gen_bool(0.5) { self.rng.r#gen() } else { [0x00, 0x02, 0x10, 0x50, 0x70, 0x0f, 0x08][self.rng.gen_range(0..7)] };
-        let rxdelay: u8 = self.rng.gen_range(0..16);
+        let mut dl: u8 = if self.rng.gen_bool(0.5) { self.rng.r#gen() } else { [0x00, 0x02, 0x10, 0x50, 0x70, 0x0f, 0x08][self.rng.gen_range(0..7)] };
+        let mut rxdelay: u8 = self.rng.gen_range(0..16);
+        if self.cfg.ja_enum {
+            // every DLSettings byte in turn; RxDelay cycles with a different period, 0 and 1 over-represented
+            dl = (self.join_nonce.wrapping_mul(37) % 256) as u8;
+            rxdelay = [0u8, 5, 0, 1, 15, 2, 0, 7, 1, 9, 3, 0][(self.join_nonce % 12) as usize];
+        }
         self.join_nonce += 1;
         let jn = [self.join_nonce as u8, (self.join_nonce >> 8) as u8, 0];
         let addr: [u8; 4] = self.rng.r#gen();
@@ -1123,6 +1153,9 @@ impl Gen {
         if !nb && self.rng.gen_bool(self.cfg.p_fault) {
             p.fault = self.rng.gen_range(0..9);
         }
+        if nb && self.rng.gen_bool(self.cfg.p_fault) {
+            p.fault = self.rng.gen_range(1..=4);
+        }
         if nb && self.rng.gen_ratio(1, 6) {
             p.noise = vec![self.rng.r#gen(), self.rng.r#gen()];
         }
@@ -1145,6 +1178,15 @@ impl Gen {
                 },
                 7 | 8 => Op::JoinAbp { nwk: self.rng.r#gen(), app: self.rng.r#gen(), addr: self.rng.r#gen() },
                 _ => Op::Send { port: 1, data: vec![1], confirmed: false, draws, plan: self.plan(v, false) },
+            });
+        }
+        if self.rng.gen_bool(self.cfg.p_rejoin) {
+            return Some(Op::JoinOtaa {
+                appkey: self.cfg.appkey,
+                deveui: [1, 2, 3, 4, 5, 6, 7, 8],
+                appeui: [8, 7, 6, 5, 4, 3, 2, 1],
+                draws,
+                plan: self.plan(v, true),
             });
         }
         Some(match self.rng.gen_range(0..100) {
@@ -1222,9 +1264,23 @@ pub fn vh_mac(a: &Args) {
                 };
                 let seed: u64 = rng.r#gen();
                 let reset = reset_op(&mut rng, region, fr, classc);
+                // weight presets per property profile
+                let profile = a.get("profile").unwrap_or("mixed");
+                let (p_rejoin, ja_enum) = if profile == "join" { (0.35, true) } else { (0.0, false) };
+                let (p_downlink, p_cmds, p_reject, p_fault) = match profile {
+                    "fcnt" => (0.9, 0.1, 0.5, 0.02),
+                    "join" => (0.5, 0.7, 0.2, 0.03),
+                    "faults" => (0.5, 0.3, 0.3, 0.5),
+                    "reject" => (0.85, 0.7, 0.6, 0.03),
+                    "cmds" => (0.95, 1.0, 0.08, 0.02),
+                    "tx" => (0.6, 0.9, 0.1, 0.02),
+                    "adr" => (0.04, 0.3, 0.3, 0.01),
+                    "hostile" => (0.7, 0.8, 0.35, 0.08),
+                    _ => (0.45, 0.6, 0.3, 0.06),
+                };
                 let mut g = Gen::new(seed, GenCfg {
                     region: region.clone(), front: fr.into(), classc, max_steps: steps, appkey: rng.r#gen(),
-                    p_downlink: 0.45, p_cmds: 0.6, p_reject: 0.3, p_fault: 0.06,
+                    p_downlink, p_cmds, p_reject, p_fault, p_rejoin, ja_enum,
                 });
                 let mut f = |v: &View| g.next(v);
                 run_history(out.shard(h), &[reset], seed, Some(&mut f));
